@@ -195,6 +195,43 @@ def gen_injection_cases(rng, per_proto, protos=None):
     return cases
 
 
+def gen_resize_cases(rng):
+    """shrinking a buffer that holds messages (the property's own example): every protocol with a resizable queue,
+    filled to k messages, then resized to every smaller / larger depth, then drained and closed"""
+    cases = []
+    wire = {"sub0_raw": "", "req0_raw": "80000001", "rep0_raw": "80000001", "surveyor0_raw": "80000001", "respondent0_raw": "80000001",
+            "sub0": "", "pair0": "", "pair1": "00000001", "bus0": "", "bus0_raw": "", "pair1_raw": "00000001", "pair0_raw": ""}
+    for proto, pre in wire.items():
+        for fill in (2, 5, 9):
+            for new in (0, 1, 2, 4, 8):
+                tags = Tags(rng)
+                L = ["open s0 " + proto]
+                if proto == "sub0":
+                    L.append("setopt s0 x sub -")
+                L += ["setopt s0 recv-buffer int 8", "conn s0 %d" % PEER[base(proto)]]
+                L += ["inject p0 %s%s" % (pre, tags.next()) for _ in range(fill)]
+                L += ["setopt s0 recv-buffer int %d" % new, "recvnb s0", "recv s0 a0", "inject p0 %s%s" % (pre, tags.next()), "recvnb s0"]
+                if rng.random() < 0.5:
+                    L += ["drop p0"]
+                L += ["close s0"]
+                cases.append(L)
+    for proto in ("push0", "pub0", "pair0", "pair1", "bus0", "req0_raw", "surveyor0_raw"):
+        for fill in (2, 5, 9):
+            for new in (0, 1, 2, 4):
+                tags = Tags(rng)
+                h = {"req0_raw": "80000001", "surveyor0_raw": "80000001"}.get(proto, "-")
+                L = ["open s0 " + proto, "setopt s0 send-buffer int 8"]
+                if proto in ("pub0", "bus0", "surveyor0_raw"):
+                    L += ["conn s0 %d" % PEER[base(proto)]]          # a busy pipe makes the per-pipe queue fill
+                L += ["send s0 a%d %s %s" % (k, h, tags.next()) for k in range(fill)]
+                L += ["setopt s0 send-buffer int %d" % new]
+                if proto not in ("pub0", "bus0", "surveyor0_raw"):
+                    L += ["conn s0 %d" % PEER[base(proto)]]
+                L += ["sent p0", "sent p0", "sent p0", "cancel a1", "close s0"]
+                cases.append(L)
+    return cases
+
+
 def gen_random_case(rng):
     """a random history on one socket of a random protocol: every kind of operation, any order"""
     proto = rng.choice(PROTOS) + ("_raw" if rng.random() < 0.3 else "")
@@ -664,7 +701,11 @@ def run(tier, seed, replay=None):
         # (1) corpus, (2) option / cancel / close / loss at every position of every protocol's exchange
         cases = load_corpus("C03")
         inj = gen_injection_cases(rng, 40 if quick else None)
-        ledger_run(rep, impl, model, cases + inj, "inject", stats)
+        rsz = gen_resize_cases(rng)
+        if quick:
+            rsz = rng.sample(rsz, 120)
+        ledger_run(rep, impl, model, cases + rsz, "resize", stats)
+        ledger_run(rep, impl, model, inj, "inject", stats)
         rep.cov["injection_cases"] = len(inj)
         tick("inject")
         # (3) random histories, every protocol; (4) the other protocol checks' own generators
